@@ -386,6 +386,16 @@ def check(ctx):
     check_nodes(ctx)
     check_translation(ctx)
     check_users(ctx)
+    # rule right-hand sides: the plain slot evaluates the compiled expression without a volume ('volume' reads 1), the volume slot
+    # evaluates it with the volume in play, for parameter and species targets alike (C09 R9.2) - re-emitted here
+    from ..core import SubCtx
+    from . import c09
+    sub = SubCtx(ctx)
+    c09.check_operations(sub)
+    for rule, key, ok, where, what, detail in sub.got:
+        if rule == 'R9.2-operation' and key.startswith('General'):
+            ctx.ob('R2.1-users', key, ok, where, what + "; the right-hand side is evaluate(...) in the plain slot and volume_evaluate(..., volume, ...) in the volume slot", detail)
+    ctx.floor('R2.1-users', 7)
     ctx.floor('R2.1-node-semantics', 28)
     ctx.floor('R2.2-translation', 9)
     ctx.floor('R2.3-rejection', 3)
